@@ -930,8 +930,11 @@ impl SimHooks for World {
                 let blob_size = u64::from_le_bytes(data[75..83].try_into().unwrap());
                 let bname = name.replace(".index", ".blob");
                 let synced = w.shadows.get(&bname).map(|s| s.synced_len).unwrap_or(0);
+                // after a failed or partial write the storage's size counter is ahead of the file: the
+                // recorded blob size then describes bytes that do not exist (not an ordering question)
+                let holes = w.shadows.get(&bname).map(|s| s.has_holes).unwrap_or(false);
                 w.probes.bump("index_marked_complete");
-                if synced < blob_size {
+                if synced < blob_size && !holes {
                     let v = Violation::new("C12", "index-complete-before-blob-sync", "an index file was marked complete before the blob bytes it describes were synced", format!("{} describes blob size {} but only {} bytes of {} are synced", name, blob_size, synced, bname));
                     w.violations.push(v);
                 }
